@@ -100,6 +100,19 @@ def gen_for(stream, seed):
             if ev["type"] != "arbitrary":
                 for kk in ev["impact"]:
                     ev["impact"][kk] *= rng.choice([3.0, 8.0, 20.0])
+        if rng.random() < 0.4:
+            # an industry without capital hit by a capital-destroying event: must be rejected, not divided away
+            tb, cfg = sc["table"], sc["model"]
+            N = tb["m"] * tb["n"]
+            x = [sum(tb["Z"][i]) + sum(tb["Y"][i]) for i in range(N)]
+            vals = [xi * rng.uniform(0.5, 4.0) for xi in x]
+            z = rng.randrange(N)
+            vals[z] = 0.0
+            cfg["capital"] = {"kind": rng.choice(["ndarray", "series", "dataframe"]), "values": vals}
+            regs, secs, cats = scen.labels(tb)
+            key = f"{regs[z // tb['n']]}|{secs[z % tb['n']]}"
+            sc["events"] = [{"type": "recovery", "occ": rng.randint(1, 3), "dur": 2, "name": None, "emf": cfg["monetary_factor"],
+                             "impact": {key: max(1.0, x[z] * 0.01)}, "house": None, "recovery_tau": 3, "curve": "linear"}]
         sc["stream"] = "excess"
         return sc
     if stream == "rebuild":
